@@ -7,6 +7,7 @@ import FluteModel.Lemmas.ObjRecvPanicFree
 import FluteModel.Lemmas.RecvAllObj
 import FluteModel.Lemmas.RecvWhole
 import FluteModel.Lemmas.DrainObjInst
+import FluteModel.Lemmas.DrvOrecvDzOK
 /-
   C04, THE WHOLE CALL (review batch 2: "no statement covers parse → Receiver.push → ObjectReceiver → BlockWriter → ring
   as ONE call").  Integrator: agent path/ring.  Nothing here edits an owner's model; this file composes
@@ -184,7 +185,8 @@ example (P : ObjRecv.Params) (D : ObjRecv.DzOK P) :
 
 /-- non-vacuity of the hypothesis `D : DzOK P` (review batch 3: the earlier constant-fuel `DzOK` was unsatisfiable for any
     decompressor that produces data): (a) the `recv` driver's degenerate parameters, (b) parameters whose decompressor hands out
-    every byte it is given, (c) the `orecv` driver's table decompressor for any table - (b), (c) with ANY codec and writer
+    every byte it is given, (c) the always-draining table decompressor `idealDz`, (c') the table decompressor `tableDz` the `orecv` driver executes,
+    each for any table - (b), (c), (c') with ANY codec and writer
     environment (`Lemmas/DrainObjInst.lean`) -/
 example : Nonempty (ObjRecv.DzOK Full.params0) := ⟨dzOK0⟩
 
@@ -192,6 +194,18 @@ example (P0 : ObjRecv.Params) (h : P0.dzRead = Flute.Lemmas.DrainObj.idRead) :
     ∃ P : ObjRecv.Params, P.dzRead = Flute.Lemmas.DrainObj.idRead ∧ P.codec = P0.codec ∧ P.env = P0.env ∧
       Nonempty (ObjRecv.DzOK P) := Flute.Lemmas.DrainObj.dzOK_identity_satisfiable P0 h
 
+/-- (c') the decompressor the `orecv` driver EXECUTES since review batch 4 (`tableDz`: buffered reader, nothing consumed after
+    the end of the compressed stream, so the ring can fill up), with orecv's `tableContract`; the driver's own parameters:
+    `Flute.Drv.Orecv.drv_params_dzOK` -/
+example (P0 : ObjRecv.Params) (ztab : List (FecDec.Bytes × FecDec.Bytes × Bool))
+    (h : P0.dzRead = Flute.Drv.Orecv.tableDz ztab) :
+    ∃ P : ObjRecv.Params, P.dzRead = Flute.Drv.Orecv.tableDz ztab ∧ P.codec = P0.codec ∧ P.env = P0.env ∧
+      Nonempty (ObjRecv.DzOK P) :=
+  let C := Flute.Drv.Orecv.tableContract P0 ztab h
+  ⟨{ P0 with dzFuel := fun w => Flute.Lemmas.DrainObj.bwMu (C.withFuel (fun _ => 0)) w + 1 }, h, rfl, rfl,
+    ⟨Flute.Lemmas.DrainObj.dzOK_of_contract C⟩⟩
+
+/-- (c) the earlier, always-draining variant `idealDz` of that table decompressor -/
 example (P0 : ObjRecv.Params) (ztab : List (FecDec.Bytes × FecDec.Bytes × Bool))
     (h : P0.dzRead = Flute.Drv.Orecv.idealDz ztab) :
     ∃ P : ObjRecv.Params, P.dzRead = Flute.Drv.Orecv.idealDz ztab ∧ P.codec = P0.codec ∧ P.env = P0.env ∧
